@@ -319,6 +319,10 @@ struct Obs {
   int retry_poll = -1000, retry_events = 0;   // poll(EXIT, 0) on the restarted handle while its child idles
   // history after a successful start
   std::vector<std::string> history;   // "op=result"
+  // after a failed start: results of terminate / kill / wait(0) / pid on the handle, signals sent and reaps tried meanwhile
+  bool failed_handle_probed = false;
+  int failed_handle_results[4] = { 0, 0, 0, 0 };
+  int failed_handle_signals = 0, failed_handle_reaps = 0;
   int sig_count_after_reap = 0;
   int final_status = -1000;
   std::string ledger, ledger_sig;
@@ -532,7 +536,7 @@ inline Obs run(const RunConfig &cfg, const std::string &root)
       break;
     case S_ENV_EXTEND_EXTRA:
       use_extra = true;
-      extra = { "EXTRA1=x", "EXTRA2=y" };
+      extra = { "EXTRA1=x", "PARENT_TWO=overridden by an extra entry", "EXTRA2=y" };  // one extra names a variable the caller has too
       break;
     case S_FORK:
       fork_mode = true;
@@ -853,6 +857,18 @@ inline Obs run(const RunConfig &cfg, const std::string &root)
       o.sig_count_after_reap = w >= 0 ? vs_nsig() - before_sigs : 0;
     }
   } else if (r < 0) {
+    // ---- a handle whose start failed owns no process: terminate, kill, wait and pid refuse it and send nothing
+    {
+      int sigs0 = vs_nsig();
+      uint32_t kills0 = vs_counts.calls[VS_KILL], waits0 = vs_counts.calls[VS_WAITPID];
+      o.failed_handle_results[0] = reproc_terminate(p);
+      o.failed_handle_results[1] = reproc_kill(p);
+      o.failed_handle_results[2] = reproc_wait(p, 0);
+      o.failed_handle_results[3] = reproc_pid(p);
+      o.failed_handle_signals = (vs_nsig() - sigs0) + (int) (vs_counts.calls[VS_KILL] - kills0);
+      o.failed_handle_reaps = (int) (vs_counts.calls[VS_WAITPID] - waits0);
+      o.failed_handle_probed = true;
+    }
     // ---- all-or-nothing: the handle must be startable again
     o.retried = true;
     hz::Puppet *pp = &pup;
